@@ -514,6 +514,7 @@ pub fn gen_case(seed: u64, k: u64) -> Case {
                 stay_bias: *r.pick(&[0u32, 0, 30, 60, 90]),
                 early_coin: *r.pick(&[2u32, 4, 8, 16]),
                 stall_bound_us: 1_000_000,
+                schedule: None,
             },
             net: mos_simrt::net::NetKnobs {
                 max_chunk: *r.pick(&[0usize, 0, 0, 3, 64]),
@@ -521,6 +522,7 @@ pub fn gen_case(seed: u64, k: u64) -> Case {
             },
             // a long-running subroutine costs a few scheduling steps per instruction
             max_steps: if long_running { 4_000_000 } else { 600_000 },
+            record_schedule: false,
         },
         end_with_drop: r.chance(1, 4),
         fast_client,
@@ -1742,6 +1744,7 @@ pub struct RunResult {
     pub history: Vec<HistEv>,
     pub max_runnable: usize,
     pub panic_message: String,
+    pub recorded: Vec<u32>,
 }
 
 fn short_loc(loc: &str) -> String {
@@ -1843,6 +1846,7 @@ pub fn run_case(case: &Case) -> RunResult {
         history: out.history,
         max_runnable: out.sched.max_runnable,
         panic_message: out.panic.map(|p| p.message).unwrap_or_default(),
+        recorded: out.recorded,
     }
 }
 
@@ -2071,11 +2075,31 @@ pub fn main(cli: &Cli) -> i32 {
             if let Some(f) = r.found {
                 *acc.sigs.entry(f.sig.clone()).or_insert(0) += 1;
                 if !determinism && !acc.violations.iter().any(|v| v.sig == f.sig) {
-                    let m = minimise(&case, &f.sig);
+                    let mut m = minimise(&case, &f.sig);
+                    let seed_only = m.to_json();
+                    // the schedule itself: recorded, replayed, reduced (first two signatures per worker)
+                    let mut sched_info = Value::Null;
+                    if acc.violations.len() < 2 {
+                        let base = m.clone();
+                        if let Some((k2, info)) = minimise_schedule(&m.knobs, &f.sig, 150, &|kn: &ExecKnobs| {
+                            let mut c = base.clone();
+                            c.knobs = kn.clone();
+                            let r = run_case(&c);
+                            (r.found.map(|x| x.sig), r.recorded, r.switches)
+                        }) {
+                            m.knobs = k2;
+                            sched_info = info;
+                        }
+                    }
                     let mf = run_case(&m)
                         .found
                         .filter(|x| x.sig == f.sig)
                         .unwrap_or(f.clone());
+                    let mut replay_json = m.to_json();
+                    if !sched_info.is_null() {
+                        replay_json["schedule_minimisation"] = sched_info;
+                        replay_json["seed_only_fallback"] = seed_only;
+                    }
                     acc.violations.push(Violation {
                         property: PROP,
                         class: mf.class.clone(),
@@ -2088,7 +2112,7 @@ pub fn main(cli: &Cli) -> i32 {
                             mf.message
                         ),
                         run_index: k,
-                        replay: m.to_json(),
+                        replay: replay_json,
                     });
                 }
             }
